@@ -848,6 +848,68 @@ pub fn gen_c20(rng: &mut Rng, d: &mut Dist, _idx: u64) -> Vec<String> {
         };
         (t, p)
     };
+    // a third of the histories go through the consumer or the producer layer: built from hosts (everything is loaded) or from
+    // a client that has loaded a subset (or nothing), assigned / sending to known and unknown topics and partitions
+    let layer = rng.below(6);
+    if layer < 2 {
+        let from_client = rng.chance(1, 2);
+        if from_client {
+            match rng.below(3) {
+                0 => out.push("OP c load_metadata_all".into()),
+                1 => {
+                    let ts: Vec<String> = (0..(1 + rng.below(2))).map(|_| h(&rng.pick(&cl.topics).name)).collect();
+                    out.push(format!("OP c load_metadata {}", ts.join(" ")));
+                }
+                _ => {}
+            }
+        }
+        let from = if from_client { "client".to_string() } else { format!("hosts={}", cl.bootstrap()) };
+        if layer == 0 {
+            bump(d, if from_client { "consumer-from-client" } else { "consumer-from-hosts" });
+            let mut opts: Vec<String> = Vec::new();
+            for _ in 0..(1 + rng.below(3)) {
+                let (t, p) = pick_tp(rng, d, &cl);
+                if rng.chance(1, 2) {
+                    opts.push(format!("topic={}", h(&t)));
+                } else {
+                    let (_, p2) = pick_tp(rng, d, &cl);
+                    opts.push(format!("tp={}:{}", h(&t), if rng.chance(1, 2) { format!("{}", p) } else { format!("{},{}", p, p2) }));
+                }
+            }
+            if rng.chance(2, 3) {
+                opts.push(format!("group={}", h("grp")));
+                opts.push(format!("storage={}", rng.pick(&["zk", "kafka"])));
+            }
+            opts.push(format!("fallback={}", rng.pick(&["earliest", "latest"])));
+            rng.shuffle(&mut opts);
+            out.push(format!("OP consumer_create {} {}", from, opts.join(" ")));
+            for _ in 0..(2 + rng.below(6)) {
+                let (t, p) = pick_tp(rng, d, &cl);
+                match rng.below(5) {
+                    0 | 1 => out.push("OP poll".into()),
+                    2 => out.push(format!("OP consume {} {} {}", h(&t), p, rng.below(3))),
+                    3 => out.push(format!("OP seek {} {} {}", h(&t), p, rng.below(3))),
+                    _ => out.push("OP commit".into()),
+                }
+            }
+        } else {
+            bump(d, if from_client { "producer-from-client" } else { "producer-from-hosts" });
+            out.push(format!("OP producer_create {} acks={}", from, rng.pick(&[0i64, 1])));
+            let mut i = 0u32;
+            for _ in 0..(2 + rng.below(4)) {
+                let mut line = String::from("OP send_all");
+                for _ in 0..(1 + rng.below(4)) {
+                    i += 1;
+                    let (t, p) = pick_tp(rng, d, &cl);
+                    let p = if rng.chance(1, 3) { -1 } else { p };
+                    let k = if rng.chance(1, 2) { "-".to_string() } else { hex(&rng.bytes(2)) };
+                    line.push_str(&format!(" {} {} {} {:08x}", h(&t), p, k, i));
+                }
+                out.push(line);
+            }
+        }
+        return out;
+    }
     let nops = 4 + rng.below(10);
     for _ in 0..nops {
         // the cluster changes under the client: a topic loses or gains partitions between loads
